@@ -222,3 +222,14 @@ class OddOp(Command):
             got.append((c.result_name, c.result))
         ODD_RECEIVED[self.result_name] = got
         return ("oddop", self.result_name)
+
+
+class PathChain(Command):
+    """Produces a text (a file name, say) and takes texts produced by others where it expects paths."""
+    inputs = {"P": params.ResultParameter(params.PathParameter(must_exist=False), required=False),
+              "L": params.ListParameter(params.ResultParameter(params.PathParameter(must_exist=False)), required=False)}
+    output = params.StringParameter()
+
+    def execute(self, **kwargs):
+        EXEC_LOG.append(self.result_name)
+        return "made-by-" + self.result_name
